@@ -21,6 +21,7 @@
 //		coerce <ty | (alias ty)> <v>         (model + implementation) types.CoerceTo: instance test, one Optional removed, Array /
 //		       Hash / Struct element-wise, else new(type, value); out as newm
 //
+//		cancoerce <ty | (alias ty)> <v>      (model + implementation) types.CanCoerce
 //		initinst <recv> <v>                  (model + implementation) px.IsInstance(recv, v), recv as for newm
 //		initasg (init ty v*) <ty>            (model + implementation) px.IsAssignable(Init[ty, v…], ty)
 //
@@ -986,6 +987,46 @@ func execCoerce(c px.Context, args []sx.Sexp) core.Result {
 	return res
 }
 
+// execCanCoerce: `cancoerce <ty | (alias ty)> <v>` — types.CanCoerce.  Direct predicate (class coerce-without-can): whatever
+// CoerceTo converts, CanCoerce must have said yes to (the converse does not hold in the code: CanCoerce looks at neither sizes
+// nor missing members and asks a non-array against the element type)
+func execCanCoerce(c px.Context, args []sx.Sexp) core.Result {
+	if len(args) != 2 {
+		return core.Result{Out: "bad-op", Pred: "FAIL harness-bad-op cancoerce"}
+	}
+	switch args[1].Tag() {
+	case "i", "s", "b", "u", "a", "d", "h", "f", "bin", "ts":
+	default:
+		return core.Result{Out: "bad-op", Pred: "FAIL harness-bad-op value"}
+	}
+	v := valOf(c, args[1])
+	var typ px.Type
+	var src string
+	if o := safely(func() { typ, src = newmTypeOf(c, args[0]) }); o != "" || typ == nil {
+		return core.Result{Out: "bad-op", Pred: "FAIL harness-bad-op type does not parse: " + args[0].String()}
+	}
+	can := false
+	out := safely(func() { can = types.CanCoerce(typ, v) })
+	res := core.Result{Pred: "ok", NonTrivial: true, Tags: []string{"cancoerce.type=" + typ.Name()}}
+	switch {
+	case out == "":
+		res.Out = sx.B(can)
+	case strings.HasPrefix(out, "reported "):
+		res.Out = out
+	default:
+		res.Out = out
+		res.Pred = fmt.Sprintf("FAIL can-coerce-fault CanCoerce(%s, %s) ended in %s", src, short(v), out)
+		return res
+	}
+	res.Tags = append(res.Tags, "cancoerce.out="+strings.Replace(res.Out, " ", ":", -1))
+	if !can {
+		if o2 := safely(func() { types.CoerceTo(c, "x", typ, v) }); o2 == "" {
+			res.Pred = fmt.Sprintf("FAIL coerce-without-can CoerceTo(%s, %s) converts the value although CanCoerce answered %s", src, short(v), res.Out)
+		}
+	}
+	return res
+}
+
 // execInitInst: `initinst <recv> <v>` — px.IsInstance(recv, v) for the receivers of newm (Init[T, args…] above all): what
 // Init[T] accepts must be what T.new takes.  Direct predicate (class init-instance-new): when the answer is true,
 // Init[T,…].new(v) must not end in the argument error of the dispatch… which cannot be told from an ILLEGAL_ARGUMENTS raised
@@ -1131,6 +1172,8 @@ func exec(c px.Context, op string, args []sx.Sexp) (res core.Result) {
 		return execNewC(c, args)
 	case "coerce":
 		return execCoerce(c, args)
+	case "cancoerce":
+		return execCanCoerce(c, args)
 	case "initinst":
 		return execInitInst(c, args)
 	case "initasg":
